@@ -179,7 +179,7 @@ theorem stats_choice (nm : String) (acc : Bool) (k : Nat) (xs : List Obs)
   intro r
   have h1 := foldUpd_choice_counts (fresh nm .choice acc k) rfl xs hv
   obtain ⟨h2, h3, h4, _, h6, _⟩ := foldUpd_choice_rest (fresh nm .choice acc k) rfl xs hv
-  refine ⟨fun i => ?_, by rw [h2]; simp [fresh], by rw [foldUpd_n]; simp [fresh], by rw [h3]; simp [fresh],
+  refine ⟨fun i => ?_, by rw [h2]; simp [fresh], by rw [foldUpd_n hv]; simp [fresh], by rw [h3]; simp [fresh],
     by rw [h4]; simp [fresh], by rw [h6]; cases acc <;> simp [fresh]⟩
   rw [h1 i]
   by_cases hi : i < k <;> simp [fresh, hi]
@@ -228,8 +228,8 @@ theorem misc_empty_chunk_resets :
 
 /-- `update` raises iff the observation is not valid for the object's type, and then with the
     exception kind of the code: RATIO without total → ValueError, total 0 → ZeroDivisionError,
-    CHOICE non-integer → AssertionError, CHOICE index out of range → IndexError.  In every case
-    the update count has already been incremented. -/
+    CHOICE non-integer → AssertionError, CHOICE index out of range → IndexError.  **A call that
+    raises leaves the object exactly as it was** (R4); a successful call counts one update. -/
 theorem update_raises_iff_invalid (r : Res) (o : Obs) :
     ((update r o).2 = none ↔ validObs r o)
       ∧ (r.ty = .ratio → o.t = none → (update r o).2 = some .ValueError)
@@ -237,30 +237,48 @@ theorem update_raises_iff_invalid (r : Res) (o : Obs) :
       ∧ (r.ty = .choice → o.v.den ≠ 1 → (update r o).2 = some .AssertionError)
       ∧ (r.ty = .choice → o.v.den = 1 → pyIndex r.counts.length o.v.num = none →
             (update r o).2 = some .IndexError)
-      ∧ (update r o).1.n = r.n + 1 := by
-  refine ⟨⟨fun h => ?_, update_ok⟩, ?_, ?_, ?_, ?_, update_n r o⟩
+      ∧ ((update r o).2 ≠ none → (update r o).1 = r)
+      ∧ (validObs r o → (update r o).1.n = r.n + 1) := by
+  refine ⟨⟨fun h => ?_, update_ok⟩, ?_, ?_, ?_, ?_, update_err_unchanged r o, update_n_ok⟩
   · exact Classical.byContradiction (fun hv => update_err_of_invalid hv h)
   · intro ht ho; simp [update, ht, ho]
   · intro ht ho; simp [update, ht, ho]
   · intro ht hd; simp [update, ht, hd]
   · intro ht hd hi; simp [update, ht, hd, hi]
 
-/-- `merge` of results with different type or name, or of a non-accumulating result into an
-    accumulating one, raises `AssertionError` and leaves `self` untouched. -/
+/-- a rejected update in the middle of a history is as if it had never been made: the history
+    continues exactly like the one of an object that never saw the call (R4) -/
+theorem rejected_update_is_invisible (r : Res) (o : Obs) (xs ys : List Obs) (h : ¬ validObs (foldUpd r xs) o) :
+    foldUpd r (xs ++ o :: ys) = foldUpd r (xs ++ ys) := by
+  rw [foldUpd_append, foldUpd_append, foldUpd_cons,
+    update_err_unchanged _ _ (update_err_of_invalid h)]
+
+/-- `merge` of results with different type or name, of a non-accumulating result into an
+    accumulating one, or of CHOICE results with a different number of choices raises
+    `AssertionError` and **leaves `self` untouched** (the argument is never written anyway) (R4). -/
 theorem merge_rejects_incompatible (a b : Res)
-    (h : a.ty ≠ b.ty ∨ a.name ≠ b.name ∨ (a.acc = true ∧ b.acc = false)) :
+    (h : a.ty ≠ b.ty ∨ a.name ≠ b.name ∨ (a.acc = true ∧ b.acc = false)
+          ∨ (a.ty = .choice ∧ a.counts.length ≠ b.counts.length)) :
     merge a b = (a, some .AssertionError) := by
   have hg : mergeGuard a b = some .AssertionError := by
     unfold mergeGuard
     by_cases h1 : a.ty = b.ty
     · by_cases h2 : a.name = b.name
-      · rcases h with h | h | h
-        · exact absurd h1 h
-        · exact absurd h2 h
-        · simp [h1, h2, h.1, h.2]
+      · by_cases h3 : a.acc = true ∧ b.acc = false
+        · simp [h1, h2, h3.1, h3.2]
+        · rcases h with h | h | h | h
+          · exact absurd h1 h
+          · exact absurd h2 h
+          · exact absurd h h3
+          · rw [if_neg (not_not.mpr h1), if_neg (not_not.mpr h2), if_neg h3, if_pos h]
       · simp [h1, h2]
     · simp [h1]
   simp [merge, hg]
+
+/-- whenever `merge` raises an assertion, `self` is unchanged (R4) -/
+theorem merge_rejected_unchanged (a b : Res) (e : PyErr) (h : mergeGuard a b = some e) :
+    merge a b = (a, some e) := by
+  simp [merge, h]
 
 /-! ## SimulationResults: merging whole result sets -/
 
@@ -289,16 +307,8 @@ theorem merge_all_pointwise (m : Mach) (s o : Nat) (A B : String → Nat)
   obtain ⟨p1, p2, p3⟩ := mergeNames_pointwise (dictOf m s) (dictOf m o) A B _ m hnd hnsr hA hB hinj hsep hc
   have hl := mergeNames_lists (dictOf m s) (dictOf m o) m ((dictOf m s).map (·.1))
   have hsm := mergeNames_sims (dictOf m s) (dictOf m o) m ((dictOf m s).map (·.1))
-  have hstep : mergeAll m s o = mergeNames (dictOf m s) (dictOf m o) m ((dictOf m s).map (·.1)) := by
-    unfold mergeAll
-    simp only [hs, ho, and_self, if_true, hne, if_false]
-    generalize hmn : mergeNames (dictOf m s) (dictOf m o) m ((dictOf m s).map (·.1)) = q at p1 hsm
-    obtain ⟨m1, e1⟩ := q
-    simp only at p1 hsm
-    subst p1
-    simp only
-    have : dictOf m1 o = dictOf m o := by simp [dictOf, hsm]
-    rw [mergeNsr_absent m1 s o (by rw [this]; exact hnsro)]
+  have hstep := mergeAll_eq_mergeNames m s o hs ho hne hnsro
+    (checkNames_none (dictOf m s) (dictOf m o) A B m _ hA hB hc) p1
   rw [hstep]
   exact ⟨p1, p2, p3, hl, hsm⟩
 
@@ -334,6 +344,60 @@ theorem merge_all_sequence_is_accumulation (m : Mach) (s : Nat) (os : List Nat) 
       simp only [List.filterMap_cons, hch o (by simp), List.map_cons]
       rw [ih (fun o' ho' => hch o' (by simp [ho']))]
   rw [e, mergeSeq_foldUpd nm ty acc k hm]
+
+/-- **a rejected `merge_all_results` changes nothing** (R4): when the validation pass finds a
+    missing name (`KeyError`), an empty list or an incompatible pair of results (`AssertionError`),
+    for an ordinary name or for `'num_skipped_reps'`, the call raises and the whole heap — `self`,
+    `other`, every Result — is exactly as before. -/
+theorem merge_all_rejected_unchanged (m : Mach) (s o : Nat) (e : PyErr) (hne : dictOf m s ≠ [])
+    (h : checkNames (dictOf m s) (dictOf m o) m ((dictOf m s).map (·.1)) = some e
+          ∨ (checkNames (dictOf m s) (dictOf m o) m ((dictOf m s).map (·.1)) = none ∧ checkNsr m s o = some e)) :
+    s < m.sims.length → o < m.sims.length → mergeAll m s o = (m, some e) := by
+  intro hs ho
+  unfold mergeAll
+  rcases h with h | ⟨h1, h2⟩
+  · simp [hs, ho, hne, h]
+  · simp [hs, ho, hne, h1, h2]
+
+/-- a type mismatch in the *second* name is found before the first name is merged: the
+    pre-repair code left `self` half merged here -/
+theorem merge_all_rejected_witness :
+    let r := fun (nm : String) (ty : Ty) (v : Rat) => (update (fresh nm ty false 0) ⟨v, some 2⟩).1
+    let m : Mach :=
+      { res := [r "a" .sum 3, r "b" .sum 4, r "a" .sum 5, r "b" .ratio 6], lists := [[0], [1], [2], [3]],
+        sims := [⟨[("a", 0), ("b", 1)], ⟨[], []⟩⟩, ⟨[("a", 2), ("b", 3)], ⟨[], []⟩⟩] }
+    mergeAll m 0 1 = (m, some .AssertionError)
+      ∧ (mergeAllOld m 0 1).2 = some .AssertionError ∧ (mergeAllOld m 0 1).1 ≠ m := by
+  decide +kernel
+
+/-- **a rejected `combine_simulation_results` changes nothing** (R4): whatever the reason
+    (different parameters, different result names, ill-formed operands) the heap is unchanged. -/
+theorem combine_rejected_unchanged (m : Mach) (s1 s2 : Nat) (e : PyErr)
+    (h : (combine m s1 s2).2 = some e) : (combine m s1 s2).1 = m := by
+  unfold combine at h ⊢
+  cases hx1 : m.sims[s1]? with
+  | none => simp
+  | some x1 =>
+    cases hx2 : m.sims[s2]? with
+    | none => simp
+    | some x2 =>
+      simp only [hx1, hx2] at h ⊢
+      cases hp : combineParams x1.params x2.params with
+      | error e' => simp
+      | ok p =>
+        simp only [hp] at h ⊢
+        split
+        · rfl
+        · rename_i hnames
+          simp only [hnames, if_false] at h
+          cases hr : combineRows m x1.dict x2.dict (x1.params.unp.map (·.2)) (x2.params.unp.map (·.2))
+              (product (p.unp.map (·.2))) (x1.dict.map (·.1)) with
+          | error e' => simp
+          | ok rows =>
+            simp only [hr] at h
+            generalize allocRows m rows = q at h
+            obtain ⟨m1, d⟩ := q
+            simp at h
 
 /-- merging into an **empty** object (repaired source): nothing is raised and `self` then
     denotes exactly the results of `other` (name by name, in order) … -/
